@@ -376,6 +376,12 @@ def wire_rules(ctx, R, verbs=True):
                                       % norm(el), node=el)
         if verb is None:
             na = bound_arg(c, snd, snd.params[1])
+            if isinstance(na, ast.Name):
+                # the line built in a local just before
+                ds = [d for d in walk_no_nested(f.node) if isinstance(d, ast.Assign) and len(d.targets) == 1 and isinstance(d.targets[0], ast.Name)
+                      and d.targets[0].id == na.id]
+                if ds and all(is_quoted_b64(d.value) for d in ds):
+                    na = ds[0].value
             if f.name in mech and na is not None and (is_quoted_b64(na) or const_value(ctx.program, f, na) is not TOP):
                 ctx.holds("W5", "%s continuation line %s" % (f.qualname, norm(na)[:50]))
             else:
@@ -730,6 +736,9 @@ def is_quoted_b64(e):
     t = template(e)
     if t is not None and shape(t) == '"\0"' and len(holes(t)) == 1 and holes(t)[0].spec is None:
         r = holes(t)[0].expr
+        # (the text form of the encoding: base64 output is ASCII, decoding it changes nothing)
+        while isinstance(r, ast.Call) and isinstance(r.func, ast.Attribute) and r.func.attr == "decode":
+            r = r.func.value
         if isinstance(r, ast.Call) and call_name(r) in ("b64encode", "response"):
             return True
     return False
